@@ -102,7 +102,9 @@ impl Scn {
                 workers,
                 held,
                 graceful: true,
-                finish_ms: (0..workers * held).map(|_| Some(150 + r.below(500))).collect(),
+                // the first one outlives the worker's first one-second shutdown tick (sometimes the second too): the
+                // "has the timeout elapsed?" arithmetic runs with the maximal timeout while a connection is open
+                finish_ms: (0..workers * held).map(|k| Some(if k == 0 { 1150 + r.below(1100) } else { 150 + r.below(2200) })).collect(),
                 timeout_s: u64::MAX,
                 variant: Variant::Plain,
                 rt: if r.chance(1, 3) { RtKind::Tokio } else { RtKind::Actix },
